@@ -96,6 +96,7 @@ def _install():
                          else bytes(collateral_return_address.to_primitive()).hex()),
             "threshold": str(self.collateral_return_threshold),
             "ref_size": str(self._ref_script_size()),
+            "fee_buffer": int(self.fee_buffer or 0),
             "prev_ret": self._collateral_return is not None, "prev_total": self._total_collateral is not None,
         }}
         RECORDS.append(rec)
@@ -291,9 +292,7 @@ def judge(ctx, sc, r, rec):
     if body.total_collateral is not None and forfeit != body.total_collateral:
         viol("collateral inputs - collateral return != declared total_collateral", body.total_collateral, forfeit)
     if forfeit * 100 < body.fee * percent:
-        fid = None
-        if body.fee > oracle_max_fee(p, ref_size) and any(o["op"] == "c13_fee_buffer" for o in sc["ops"]):
-            fid = KF_FEEBUF
+        fid = None     # (was KF-C13-fee-buffer, repaired: the collateral is sized from max_tx_fee + fee_buffer)
         viol("forfeitable collateral is below collateral_percent of the fee", f">= {body.fee * percent} / 100", forfeit, fid)
         ctx.count(("kf:" + fid) if fid else "violation:percent")
     if ret_assets != assets:
@@ -531,7 +530,7 @@ def gen_scenario(rng, idx, mode="full", force=None):
         build = {"change": None, "collateral_change": "k1", "pyseed": 1}
     elif r3 < 0.32:
         build = {"change": None, "pyseed": 1}
-    if rng.random() < 0.03:
+    if rng.random() < 0.08:
         ops.append({"op": "c13_fee_buffer", "n": rng.choice([100_000, 2 * ADA, 3 * ADA])})
     return {"mode": mode, "family": fam[0], "kind": kind, "params": params, "utxos": utxos,
             "address_utxos": {k: v for k, v in addr_utxos.items() if v}, "ops": ops, "build": build}
